@@ -96,7 +96,7 @@ CHECKS = {
    design_ref="DESIGN.md section 6, C15",
    note="Trusted: TLC, Json module, recorder projection. Bounds: <= 4 PUs and <= 4 registrations exhaustively, 8 atoms at depth 8 sampled. Last-wins reading of forced efficiencies; restrict by cpuset with flags 0 only; ENOMEM not explored; HWLOC_CPUKINDS_RANKING unset."),
  "C17": dict(
-   technique="TLA+ protocol model of the shared state consulting calls may touch (spec/Concurrency.tla: distances and memattr caches, environment caches, the reference-counted components registry and its mutex) model-checked exhaustively by TLC with the documented discipline (NoReaderWrite, NoRace, RegistryOK invariants) and without it (TLC must find the reader write); binding through HWLOC_VERIF hook events recorded by harness/hwv_threads.c (consulting battery on a shmem-adopted read-only copy, 2-16 reader threads after load and after modify+refresh, 2-12 threads with independent topology histories) and validated by TLC against spec/TraceConcurrency.tla",
+   technique="TLA+ protocol model of the shared state consulting calls may touch (spec/Concurrency.tla: distances and memattr caches, environment caches, the reference-counted components registry and its mutex) model-checked exhaustively by TLC with the documented discipline (NoReaderWrite, NoRace, RegistryOK invariants) and without it (TLC must find the reader write); every public entry point that takes the registry (init, dup, adopt, destroy, shmem get_length/write, diff load/export, succeeding and failing) is a call whose RegInit/RegFini footprint must obey the per-call balance law of spec/Registry.tla; histories of independent threads are generated by TLC from spec/IndepCalls.tla; binding through HWLOC_VERIF hook events recorded by harness/hwv_threads.c (consulting battery on a shmem-adopted read-only copy, 2-16 reader threads after load and after modify+refresh, 2-12 threads with independent topology histories) and validated by TLC against spec/TraceConcurrency.tla",
    category="model_checking",
    text="The protocol is decided exhaustively on the model; on the real library every reader phase is checked for the absence of any hooked write (including in the first single-threaded run) and for digest equality of everything the consulting API reports with the single-threaded run, the adopted PROT_READ copy turns any write to topology memory by a consulting call into a crash, and the registry events emitted under the components mutex are replayed against RegInit/RegFini. Real schedules are sampled, not enumerated: that part is exploration.",
    design_ref="DESIGN.md section 6, C17",
